@@ -2,6 +2,7 @@ import Lean.Data.Json
 import Pdlv.Json
 import Pdlv.Enum
 import Pdlv.Resolve
+import Pdlv.Ref
 
 namespace Pdlv.Driver
 open Lean (Json)
@@ -93,7 +94,8 @@ def encErrName : EncErr → String
   | .inconsistentConditionValue => "InconsistentConditionValue"
 
 def hazardName : Hazard → String
-  | .mulOverflow => "mulOverflow" | .readOOB => "readOOB" | .chunksZero => "chunksZero"
+  | .mulOverflow => "mulOverflow" | .readOOB => "readOOB" | .optionalRead => "optionalRead"
+  | .customRead => "customRead" | .chunksZero => "chunksZero"
   | .remZero => "remZero" | .sliceOOB => "sliceOOB" | .nonTermination => "nonTermination"
   | .badValue => "badValue" | .badLayout => "badLayout" | .subOverflow => "subOverflow"
 
@@ -147,20 +149,29 @@ def handle (st : State) (req : Json) : Except String (State × Json) := do
     | none => pure (st, Json.mkObj [("status", "unsupported")])
     | some b =>
       let cases ← J.arr req "cases"
+      let mode : Mode := match J.str req "mode" with
+        | .ok "ideal" => .ideal
+        | _ => .rust
+      let cfg : Cfg := { e := f.endian, mode := mode }
       let outs ← cases.mapM fun c => do
         let k ← J.str c "k"
         match k with
         | "dec" =>
           match hexToBytes (← J.str c "hex").toList with
           | none => throw "bad hex"
-          | some bs => pure (decOut (decBody f.endian b bs))
+          | some bs => pure (decOut (decBody cfg b bs))
         | "decfull" =>
           match hexToBytes (← J.str c "hex").toList with
           | none => throw "bad hex"
-          | some bs => pure (decOut ((decodeFull f.endian b bs).bind fun v => .ok (v, [])))
+          | some bs => pure (decOut ((decodeFull cfg b bs).bind fun v => .ok (v, [])))
         | "enc" =>
           let v ← valueOfJson (← c.getObjVal? "v")
-          pure (encOut (encBody f.endian b v))
+          pure (encOut (encBody cfg b v))
+        | "ref" =>
+          let v ← valueOfJson (← c.getObjVal? "v")
+          match Ref.encode f.endian b v with
+          | some bs => pure (Json.mkObj [("r", "ok"), ("hex", Json.str bs.toHex)])
+          | none => pure (Json.mkObj [("r", "none")])
         | "len" =>
           let v ← valueOfJson (← c.getObjVal? "v")
           pure (Json.mkObj [("r", "ok"), ("len", Json.num (lenBody b v))])
